@@ -10,7 +10,7 @@ namespace Vector {
 namespace BLF {
 
 EnvironmentVariable::EnvironmentVariable(/*const ObjectType objectType*/) :
-    ObjectHeader(ObjectType::UNKNOWN) {
+    ObjectHeader(ObjectType::ENV_INTEGER) {
     /* can be one of:
      *   - objectType = ObjectType::ENV_INTEGER;
      *   - objectType = ObjectType::ENV_DOUBLE;
